@@ -62,11 +62,18 @@ pub struct P {
     /// out-of-range values (a partial-liquidation ratio above 100%); whatever the engine answers,
     /// the property's clauses are judged on what follows
     pub bad_admin: bool,
+    /// before the transaction(s) under test the owner replaces the vAMM's price feed by a freshly
+    /// deployed one that reports the current spot price; the old feed is left at a price 30 % away
+    /// in the trader's favour
+    pub feed_switch: bool,
+    /// before the transaction(s) under test the owner re-points the engine at a freshly deployed
+    /// fee pool (the old one is no longer a permitted recipient)
+    pub pool_switch: bool,
 }
 
 impl P {
     pub fn new(prop: &'static str, side: Side, seed: u64) -> P {
-        P { prop, native: false, dec: 9, fees: false, side, wide: false, seed, partial_sym: false, full_prefix: false, concrete_prefix: false, sym_lev: false, sym_lim: false, sym_ratios: false, bystanders: prop == "C10", sym_oracle: false, sym_counter: false, fault: None, real_feed: false, with_trend: false, attached: false, sym_funds: false, paused: false, vamm_ins_outsider: false, fee_seed: 0, caps_lowered: false, reopen: false, bad_admin: false }
+        P { prop, native: false, dec: 9, fees: false, side, wide: false, seed, partial_sym: false, full_prefix: false, concrete_prefix: false, sym_lev: false, sym_lim: false, sym_ratios: false, bystanders: prop == "C10", sym_oracle: false, sym_counter: false, fault: None, real_feed: false, with_trend: false, attached: false, sym_funds: false, paused: false, vamm_ins_outsider: false, fee_seed: 0, caps_lowered: false, reopen: false, bad_admin: false, feed_switch: false, pool_switch: false }
     }
     pub fn native(mut self) -> P {
         self.native = true;
@@ -214,6 +221,14 @@ impl P {
         self.reopen = true;
         self
     }
+    pub fn feed_switch(mut self) -> P {
+        self.feed_switch = true;
+        self
+    }
+    pub fn pool_switch(mut self) -> P {
+        self.pool_switch = true;
+        self
+    }
     pub fn bad_admin(mut self) -> P {
         self.bad_admin = true;
         self
@@ -221,7 +236,7 @@ impl P {
     /// owner actions between the prefix and the transaction(s) under test (`reopen`, `bad_admin`);
     /// none of them is judged by itself
     pub fn interlude(&self, r: &mut Run) {
-        if !self.reopen && !self.bad_admin {
+        if !self.reopen && !self.bad_admin && !self.feed_switch && !self.pool_switch {
             return;
         }
         let was_full = symrt::is_full();
@@ -230,6 +245,18 @@ impl P {
             for vi in 0..r.w.vamms.len() {
                 r.w.vamm_exec(OWNER, vi, &margined_perp::margined_vamm::ExecuteMsg::SetOpen { open: false });
                 r.w.vamm_exec(OWNER, vi, &margined_perp::margined_vamm::ExecuteMsg::SetOpen { open: true });
+            }
+        }
+        if self.pool_switch {
+            r.w.switch_fee_pool();
+        }
+        if self.feed_switch {
+            if let Ok(spot) = r.w.spot_price(0) {
+                // old feed: far from spot, on the side that flatters alice's position
+                let stale = if self.side == Side::Buy { spot.multiply_ratio(13u128, 10u128) } else { spot.multiply_ratio(7u128, 10u128) };
+                let now = r.w.now();
+                r.w.set_oracle(stale, now);
+                r.w.switch_feed(spot);
             }
         }
         if self.bad_admin {
@@ -290,6 +317,8 @@ impl P {
             + if self.vamm_ins_outsider { ".vamm-ins-outsider" } else { "" }
             + if self.reopen { ".reopen" } else { "" }
             + if self.bad_admin { ".bad-admin" } else { "" }
+            + if self.feed_switch { ".feed-switch" } else { "" }
+            + if self.pool_switch { ".pool-switch" } else { "" }
     }
     fn prefix_mode(&self) {
         symrt::set_full(self.full_prefix);
@@ -445,7 +474,7 @@ pub fn t_liq(p: P, regime: u128) -> impl Fn() {
         symrt::set_full(true);
         let lim = p.tx_lim("qlim", d);
         r.step(Op::Liquidate { by: LIQ, trader: ALICE, limit: lim });
-        if p.reopen || p.bad_admin {
+        if p.reopen || p.bad_admin || p.feed_switch {
             // what is left of the position is topped up and closed by its owner, then the
             // counter-party closes
             r.w.next_block(15);
